@@ -370,7 +370,7 @@ func runMessages(c *mon.C, ms []msg, side ref.Side, nplans int, payloadMarks ...
 				for _, m := range ms {
 					d = append(d, fmt.Sprintf("op=%x payload=% x cuts=%b empties=%b pings=%b emptyFinal=%v valid=%v", m.op, m.payload, m.cuts, m.empties, m.pings, m.emptyFinal, utf8.Valid(m.payload)))
 				}
-				return map[string]interface{}{"messages": d, "side": side, "entry": entry, "plan": plan.String(), "buf": o.Buf, "got": drive.EventStrings(got), "want": drive.EventStrings(want), "err": fmt.Sprint(obs.Err), "want_err": fmt.Sprint(wantErr)}
+				return map[string]interface{}{"messages": d, "side": side, "entry": entry, "plan": plan.String(), "buf": o.Buf, "source": o.Wrap, "got": drive.EventStrings(got), "want": drive.EventStrings(want), "err": fmt.Sprint(obs.Err), "want_err": fmt.Sprint(wantErr)}
 			}
 			if skipFirst && firstBad == 0 && len(got) == 0 && obs.Err == wsutil.ErrInvalidUTF8 && (len(ms[0].payload) == 1 || invalidLead(ms[0].payload[0])) {
 				// the one byte read before Discard is already not UTF-8, or it is the whole
